@@ -1558,8 +1558,7 @@ def _is_annotation_cmp(test: ast.AST, op) -> bool:
         isinstance(test, ast.Compare)
         and len(test.ops) == 1
         and isinstance(test.ops[0], op)
-        and isinstance(test.left, ast.Attribute)
-        and test.left.attr == "annotation"
+        and any(isinstance(side, ast.Attribute) and side.attr == "annotation" for side in (test.left, test.comparators[0]))
     )
 
 
